@@ -111,11 +111,29 @@ STEP_CLAUSES = {"NoRoundEnabled", "Who", "Tiebreak", "Bag", "Scores", "Remaining
 C01_CLAUSES = {"Partition", "ExactlySeats", "BoundedRounds", "Truncated", "OverElected", "NonTermination", "NoRoundEnabled"}
 
 
-def clause_property(rule, clause):
+def family_property(rule):
+    if rule in STV_RULES:
+        return {"C02"} | ({"C13"} if rule != "STV" else set())
+    if rule in ("SNTV", "TopTwo", "Alaska"):
+        return {"C13"} | ({"C04"} if rule == "SNTV" else set())
+    if rule in ("Plurality", "Borda"):
+        return {"C04"}
+    if rule in ("DominatingSets", "CondoBorda"):
+        return {"C06"}
+    if rule in ("RandomDictator", "BoostedRandomDictator"):
+        return {"C17"}
+    return set()
+
+
+def clause_property(rule, clause, flags=()):
     """the set of properties a verdict clause on a trace of `rule` speaks to"""
     ps = set()
     if clause.startswith("Error:") or clause.startswith("RoundAfter:") or clause in C01_CLAUSES:
         ps.add("C01")
+    if (clause.startswith("Error:") or clause in ("NonTermination", "Truncated")) and not flags:
+        # an exception / a missing round where the specification takes a step, in a state no recorded finding covers: the documented
+        # step did not happen, which is also a violation of the property that fixes that step
+        ps |= family_property(rule)
     if clause == "Error:ValueError":
         ps.add("C10")           # a ValueError where the spec sees no unbroken boundary tie
     if clause in STEP_CLAUSES or clause in ("Round0", "Threshold0"):
@@ -193,7 +211,7 @@ def judge(res, pid, traces, workdir, monitors=etrace.ALL_MONITORS, nontrivial=No
             clause_counts[clause] = clause_counts.get(clause, 0) + 1
             if pid == "C10" and clause == "Error:ValueError" and rec.get("flags"):
                 continue        # an exception in a state covered by a recorded C01 finding is not a tie-discipline matter
-            if pid in clause_property(t["cfg"]["rule"], clause):
+            if pid in clause_property(t["cfg"]["rule"], clause, rec.get("flags", [])):
                 sig = signature(t, clause, rec.get("flags", []))
                 res.violation(sig, "trace of %s rejected at event %d: clause %s (spec status %s, flags %s)" % (
                     t["cfg"]["rule"], rec["l"], clause, rec["status"], rec.get("flags", [])),
